@@ -107,8 +107,12 @@ def run_case(case, res):
                     w2.daemon.set_chain(blocks)
                     st = w2.loop.run_coro(w2.db.open_for_sync(), fire_timers=False)
                     ref = observe.ref_at(blocks, st.height, ACT)
-                    obs = observe.observe(w2, ref, what=reorgrun.WHAT)
-                    for field, detail in observe.compare(obs, ref, reorgrun.WHAT):
+                    try:
+                        obs = observe.observe(w2, ref, what=reorgrun.WHAT)
+                        bad = observe.compare(obs, ref, reorgrun.WHAT)
+                    except (world.ReaderBlocked, observe.ReadFailed) as e:
+                        bad = [('read-failed', repr(e))]
+                    for field, detail in bad:
                         failures.append((f'after-refused-reorg:{field}', dict(height=st.height)))
                     res.count('refused_reorgs_reopened')
                 finally:
